@@ -250,7 +250,12 @@ class CountingStorage:
     def upload(self, data: bytes, schema: pa.Schema, *, content_encoding: str | None = None) -> str:
         oid = f"o{len(self.objects) + 1:06d}"
         self.objects[oid] = (bytes(data), content_encoding)
-        self.calls.append({"req": self.current_request, "bytes": len(data), "enc": content_encoding})
+        raw = len(data)
+        if content_encoding:
+            from vgi_rpc._codec import Encoding, decompress
+
+            raw = len(decompress(Encoding(content_encoding), bytes(data)))
+        self.calls.append({"req": self.current_request, "bytes": len(data), "raw": raw, "enc": content_encoding})
         return f"https://store.test/b/{oid}"
 
     def fetch(self, url: str) -> bytes:
